@@ -2,7 +2,7 @@
    bool, option, unit, list, prod, sumbool, sumor and andb/orb are mapped to OCaml's own;
    numbers stay positive/N/Z). Run from the directory that should receive model.ml. *)
 From Coq Require Extraction ExtrOcamlBasic.
-From Chess Require Import Model.Board Model.Game Model.Attack Model.MoveGen Model.Fen Model.Text Model.Search Model.RefSearch Model.Budget.
+From Chess Require Import Model.Board Model.Game Model.Attack Model.MoveGen Model.Fen Model.Text Model.Search Model.RefSearch Model.Budget Model.Session.
 
 Extraction Language OCaml.
 Set Extraction KeepSingleton.
@@ -20,4 +20,5 @@ Extraction "model.ml"
   char_of_piece PGN_LETTER glyph all_kinds
   driver root node fresh_state mkS tempty tlen tfind quiescence depth1 history_bonus KILLER_SLOTS HISTORY_SLOTS
   chess_rootref chess_nref root_moves standpat QFUEL
+  run_cmd init_session
   go_timer go_time side_budget share Z.add Z.mul Z.div Z.modulo Z.compare.
